@@ -145,4 +145,14 @@ PROPS = {
         rule='case = one operation history; distinct = hash of the rendered history; every history is non-trivial.',
         exhaustive=dict(quick=False, thorough=False),
         assumptions=['reference automation model harness/c19.cpp']),
+    'C20': dict(
+        level_text='Runtime monitoring against a reference model of the learn protocol: the realtime half (MidiMapperRT) and the non-realtime half (MidiMappernRT) are connected by two harness-owned FIFOs (/midi-use-CC one way, /midi-learn/midi-add-watch and /midi-learn/midi-bind the other); random histories (<=30 steps) of map(address, coarse|fine), incoming CC(id, value), unMap, clear over 2..4 addresses (int and float ranges, incl. the 0..127 special case and a range below zero) and 2..6 controllers are interleaved with deliveries of the head of either FIFO, either promptly or delayed, which samples the admissible message orders. After every step the non-realtime learn queue and coarse/fine bindings must equal the model; for every CC the monitor demands exactly one parameter message with the bound address and type, a value inside [min,max] equal to the 7/14-bit composition mapped linearly, no message for unassigned controllers, and exactly one learn offer for a free controller while a watch is armed.',
+        level_note='Trusts the reference protocol model in harness/c20.cpp (it mirrors the documented handshake: a bind pops the oldest pending controller; stored 7-bit halves persist per controller id across re-binding). Message orders are sampled, not enumerated.',
+        technique='reference protocol-model monitor in lock-step with harness-controlled message delivery, AddressSanitizer/UBSan',
+        stages=[dict(harness='c20', variant='asan', quick=10000, thorough=500000,
+                     need=['ops.map', 'ops.cc', 'ops.unMap', 'ops.unmap_effective', 'ops.clear', 'cc.bound', 'cc.bound_14bit', 'cc.offered_for_learning', 'cc.ignored',
+                           'wire.bind_delivered', 'wire.watch_delivered', 'wire.learn_served', 'ops.remap_of_bound_half'])],
+        rule='case = one history incl. delivery schedule; distinct = hash of the rendered history; every history is non-trivial.',
+        exhaustive=dict(quick=False, thorough=False),
+        assumptions=['reference protocol model harness/c20.cpp']),
 }
